@@ -96,6 +96,12 @@ var (
 	hotSites    []bool
 	pendingHot  bool
 
+	// simulated blocking on library locks (see Blocked)
+	epoch      int64            // bumped on every lock release
+	blockedAt  [MaxTasks]int64  // epoch at which the task last failed to acquire
+	nblocked   int64            // task switches forced by a failed acquire
+	deadlocked bool             // every alive task was blocked at the same epoch
+
 	freeCounter uint32
 
 	taskG [MaxTasks]uintptr // goroutine identity of each task
@@ -201,6 +207,12 @@ func Configure(n int, initialOrder []int32, dec []Decision, stepBudget int64) {
 	}
 	nswitch = 0
 	ngc = 0
+	nblocked = 0
+	deadlocked = false
+	epoch = 1
+	for i := 0; i < MaxTasks; i++ {
+		blockedAt[i] = 0
+	}
 	inflightSw = 0
 	hash = 0x243f6a8885a308d3
 	nkeep = 0
@@ -410,6 +422,85 @@ func Yield(site int) {
 	}
 }
 
+// Blocked is called by generated code when a TryLock on a library mutex failed:
+// `mu.Lock()` is rewritten to `for !mu.TryLock() { verifsim.Blocked(site) }`.
+// The scheduler, not the Go runtime, owns blocking: the task is switched out
+// until some lock is released; a task parked while holding a lock can therefore
+// never block another task for real, and if every alive task is blocked with no
+// release in between, the run has deadlocked (reported, not hung).
+//
+//go:norace
+func Blocked(site int) {
+	if mode != ModeSim {
+		if mode == ModeSolo {
+			// a lone caller that cannot take a lock waits for itself
+			steps++
+			if steps > budget {
+				aborting = true
+				panic(Abort{})
+			}
+		}
+		runtime.Gosched()
+		return
+	}
+	if !isCurrent() {
+		runtime.Gosched()
+		return
+	}
+	steps++
+	if site < len(siteHits) {
+		siteHits[site]++
+	}
+	if steps > budget {
+		aborting = true
+		panic(Abort{})
+	}
+	me := cur
+	blockedAt[me] = epoch
+	n := int32(-1)
+	for i := int32(0); i < ntasks; i++ {
+		t := order[i]
+		if t != me && alive[t] && blockedAt[t] != epoch {
+			n = t
+			break
+		}
+	}
+	if n < 0 {
+		if stray > 0 {
+			// a goroutine the scheduler does not own may hold the lock
+			runtime.Gosched()
+			return
+		}
+		deadlocked = true
+		aborting = true
+		panic(Abort{})
+	}
+	nblocked++
+	nswitch++
+	hash = mix(hash, uint64(steps)<<20^uint64(me)<<12^uint64(n)<<4^2)
+	if nkeep < maxKeepSwitches {
+		keep[nkeep] = SwitchEv{Step: steps, From: me, To: n, Site: int32(site)}
+		nkeep++
+	}
+	cur = n
+	turn = n
+	for turn != me {
+		runtime.Gosched()
+	}
+	if aborting {
+		panic(Abort{})
+	}
+}
+
+// Released is called by generated code right after a library lock was released.
+//
+//go:norace
+func Released() {
+	if mode == ModeSim {
+		epoch++
+	}
+}
+
 // Crit brackets regions in which the current task must not be preempted
 // (library-held locks, sync.Once bodies): a task parked while holding a real
 // lock would block the next task for real and hang the simulation.
@@ -510,6 +601,8 @@ type RunStats struct {
 	Hash       uint64
 	Consumed   int // decisions consumed
 	Stray      int64
+	Blocked    int64 // task switches forced by a failed lock acquire
+	Deadlock   bool
 	Kept       []SwitchEv
 }
 
@@ -525,6 +618,8 @@ func Stats() RunStats {
 	r.Hash = hash
 	r.Consumed = di
 	r.Stray = stray
+	r.Blocked = nblocked
+	r.Deadlock = deadlocked
 	r.Kept = make([]SwitchEv, nkeep)
 	for i := 0; i < nkeep; i++ {
 		r.Kept[i] = keep[i]
